@@ -28,12 +28,13 @@ Reach(S, E) == LET N == S \cup {e[2] : e \in {e \in E : e[1] \in S}} \cup {e[1] 
 \* ---- tables ------------------------------------------------------------------------------------------------------------
 NodeT == {"ext_grid", "gen", "sgen", "load", "ward", "xward", "shunt"}          \* one bus reference `bus`
 FtT   == {"line", "impedance"}                                                  \* bus references `from`, `to`
-ResT  == {"bus", "line", "trafo", "impedance"} \cup NodeT                        \* tables with a result table
+ResT  == {"bus", "line", "trafo", "trafo3w", "impedance"} \cup NodeT             \* tables with a result table
 AllT  == ResT \cup {"switch"}
 \* result columns logged per table (harness/equiv.py COLS is the same table)
 Cols(t) == CASE t = "bus"       -> {"vm", "va", "p", "q"}
              [] t = "line"      -> {"pf", "qf", "pt", "qt", "pl", "ql", "if", "it", "ika", "load"}
              [] t = "trafo"     -> {"ph", "qh", "plv", "qlv", "pl", "ql", "ih", "ilv", "load"}
+             [] t = "trafo3w"   -> {"ph", "qh", "pm", "qm", "plv", "qlv", "pl", "ql", "ih", "im", "ilv", "load"}
              [] t = "impedance" -> {"pf", "qf", "pt", "qt", "pl", "ql", "if", "it"}
              [] t = "ext_grid"  -> {"p", "q"}
              [] t = "gen"       -> {"p", "q", "vm", "va"}
@@ -67,9 +68,14 @@ AddRow(tab, name, rec) == Put(tab, name, [pos |-> NextPos(tab), idx |-> NextIdx(
 (* not energised).  b6 (ext_grid e1) - b7 (load ld4, sgen sg2) is a second, separately supplied island.                     *)
 (* Lines: l0 b0-b1, l1 b1-b2 parallel=2, l2 b0-b2 (the ring line, in/out of service per variant), l3 b4-b5 without shunt    *)
 (* admittance (c = g = 0), l4 b1-b5 out of service (c = g = 0), l5 b6-b7 parallel=3, l6 b5-b8; impedance i0 b1-b2.          *)
+(* Transformers: t0 b2-b3 and t1 b1-b3 supply the 0.4 kV bus b3 from two sides, t2 b7-b11 (0.4 kV, load ld8) belongs to the  *)
+(* second island; the three-winding transformers w0 (hv b5) and w1 (hv b1) both supply b9 (10 kV, load ld6) and b10 (0.4 kV, *)
+(* load ld7).  Base variant `tsw`: the switches at transformers -- none, closed ones, or an OPEN switch at one side of a      *)
+(* two-winding and of a three-winding transformer (every bus stays energised through the parallel transformer; the open      *)
+(* switch re-routes one end of the ppc branch row of exactly that transformer to an auxiliary bus).                          *)
 Bs(vn, pos) == [vn |-> vn, ins |-> TRUE, pos |-> pos]
 Bus0 == [b0 |-> Bs(200, 0), b1 |-> Bs(200, 1), b2 |-> Bs(200, 2), b3 |-> Bs(4, 3), b4 |-> Bs(200, 4), b5 |-> Bs(200, 5),
-         b6 |-> Bs(200, 6), b7 |-> Bs(200, 7), b8 |-> Bs(200, 8)]
+         b6 |-> Bs(200, 6), b7 |-> Bs(200, 7), b8 |-> Bs(200, 8), b9 |-> Bs(100, 9), b10 |-> Bs(4, 10), b11 |-> Bs(4, 11)]
 Ln(f, t, len, r, x, c, g, par, maxi, ins, pos) ==
     [from |-> f, to |-> t, len |-> len, r |-> r, x |-> x, c |-> c, g |-> g, par |-> par, maxi |-> maxi, ins |-> ins, pos |-> pos]
 Line0(ring) == [l0 |-> Ln("b0", "b1", 4000, 120, 110, 200, 2, 1, 400, TRUE, 0),
@@ -79,10 +85,22 @@ Line0(ring) == [l0 |-> Ln("b0", "b1", 4000, 120, 110, 200, 2, 1, 400, TRUE, 0),
                 l4 |-> Ln("b1", "b5", 2500, 200, 100, 0, 0, 1, 300, FALSE, 4),
                 l5 |-> Ln("b6", "b7", 1500, 360, 330, 60, 0, 3, 200, TRUE, 5),
                 l6 |-> Ln("b5", "b8", 1000, 200, 100, 150, 0, 1, 300, TRUE, 6)]
-Trafo0 == [t0 |-> [hv |-> "b2", lv |-> "b3", ins |-> TRUE, pos |-> 0]]
+Tr(hv, lv, pos) == [hv |-> hv, lv |-> lv, ins |-> TRUE, pos |-> pos]
+Trafo0 == [t0 |-> Tr("b2", "b3", 0), t1 |-> Tr("b1", "b3", 1), t2 |-> Tr("b7", "b11", 2)]
+Trafo3w0 == [w0 |-> [hv |-> "b5", mv |-> "b9", lv |-> "b10", ins |-> TRUE, pos |-> 0],
+             w1 |-> [hv |-> "b1", mv |-> "b9", lv |-> "b10", ins |-> TRUE, pos |-> 1]]
 Imp0 == [i0 |-> [from |-> "b1", to |-> "b2", r |-> 100, x |-> 500, sn |-> 10, ins |-> TRUE, pos |-> 0]]       \* symmetric (rft = rtf)
-Switch0(swend) == [s0 |-> [bus |-> "b2", et |-> "b", elem |-> "b4", closed |-> TRUE, pos |-> 0],
-                   s1 |-> [bus |-> IF swend = "near" THEN "b5" ELSE "b8", et |-> "l", elem |-> "l6", closed |-> FALSE, pos |-> 1]]
+NoTab == [n \in {} |-> 0]
+Sw(bus, et, elem, closed, pos) == [bus |-> bus, et |-> et, elem |-> elem, closed |-> closed, pos |-> pos]
+\* switches at transformers (et "t": elem is a two-winding, "t3": a three-winding transformer); an open one never de-energises a bus
+TswLevels == {"none", "closed", "t1lv_w1mv", "t0hv_w0lv", "t1hv_w1hv"}
+TSwitch0(tsw) == CASE tsw = "none"      -> NoTab
+                   [] tsw = "closed"    -> [s2 |-> Sw("b3", "t", "t1", TRUE, 2),  s3 |-> Sw("b9", "t3", "w1", TRUE, 3)]
+                   [] tsw = "t1lv_w1mv" -> [s2 |-> Sw("b3", "t", "t1", FALSE, 2), s3 |-> Sw("b9", "t3", "w1", FALSE, 3)]
+                   [] tsw = "t0hv_w0lv" -> [s2 |-> Sw("b2", "t", "t0", FALSE, 2), s3 |-> Sw("b10", "t3", "w0", FALSE, 3)]
+                   [] tsw = "t1hv_w1hv" -> [s2 |-> Sw("b1", "t", "t1", FALSE, 2), s3 |-> Sw("b1", "t3", "w1", FALSE, 3)]
+Switch0(swend, tsw) == [s0 |-> Sw("b2", "b", "b4", TRUE, 0),
+                        s1 |-> Sw(IF swend = "near" THEN "b5" ELSE "b8", "l", "l6", FALSE, 1)] @@ TSwitch0(tsw)
 Eg0 == [e0 |-> [bus |-> "b0", vm |-> 1020, ins |-> TRUE, pos |-> 0], e1 |-> [bus |-> "b6", vm |-> 1010, ins |-> TRUE, pos |-> 1]]
 Gen0 == [g0 |-> [bus |-> "b1", p |-> 800, vm |-> 1015, slack |-> FALSE, ins |-> TRUE, pos |-> 0]]
 Pq(bus, p, q, ins, pos) == [bus |-> bus, p |-> p, q |-> q, ins |-> ins, pos |-> pos]
@@ -90,34 +108,44 @@ Sgen0 == [sg0 |-> Pq("b2", 800, 120, TRUE, 0), sg1 |-> Pq("b5", 0, 0, TRUE, 1), 
 \* load level: "low" = the values below, "high" = doubled (all divisible by 4: a split into quarters is exact)
 Load0(k) == [ld0 |-> Pq("b1", 1200 * k, 400 * k, TRUE, 0), ld1 |-> Pq("b4", 480 * k, 120 * k, TRUE, 1),
              ld2 |-> Pq("b3", 200 * k, 40 * k, TRUE, 2),   ld3 |-> Pq("b5", 400 * k, 80 * k, FALSE, 3),
-             ld4 |-> Pq("b7", 320 * k, 80 * k, TRUE, 4),   ld5 |-> Pq("b8", 100 * k, 20 * k, TRUE, 5)]
+             ld4 |-> Pq("b7", 320 * k, 80 * k, TRUE, 4),   ld5 |-> Pq("b8", 100 * k, 20 * k, TRUE, 5),
+             ld6 |-> Pq("b9", 300 * k, 60 * k, TRUE, 6),   ld7 |-> Pq("b10", 100 * k, 20 * k, TRUE, 7),
+             ld8 |-> Pq("b11", 60 * k, 20 * k, TRUE, 8)]
 Ward0 == [wa0 |-> [bus |-> "b2", ps |-> 100, qs |-> 50, pz |-> 100, qz |-> 20, ins |-> TRUE, pos |-> 0]]
 Xward0 == [xw0 |-> [bus |-> "b5", ps |-> 100, qs |-> 50, pz |-> 100, qz |-> 20, r |-> 1000, x |-> 5000, vm |-> 1010, ins |-> TRUE, pos |-> 0]]
-NoTab == [n \in {} |-> 0]
 
 (* a configuration: [prop, tr, tgt, n, perm, at]  (transformation, its target)  +  base variant                             *)
 (*   lvl "low"|"high", ring BOOLEAN, cva (calculate_voltage_angles), tmodel "t"|"pi", sn (net.sn_mva) 1|10,                 *)
-(*   layout: index labels of the ORIGINAL net ("id" continuous, "rot" permuted, "gap" with gaps), swend "near"|"far".       *)
+(*   layout: index labels of the ORIGINAL net ("id" continuous, "rot" permuted, "gap" with gaps), swend "near"|"far",       *)
+(*   tsw: the switches at transformers (TswLevels).                                                                        *)
 BaseNet(cfg) ==
     LET L == cfg.layout IN
     [sn |-> cfg.sn, bus |-> WithIdx(Bus0, L), line |-> WithIdx(Line0(cfg.ring), L), trafo |-> WithIdx(Trafo0, L),
-     impedance |-> WithIdx(Imp0, L), switch |-> WithIdx(Switch0(cfg.swend), L), ext_grid |-> WithIdx(Eg0, L),
+     trafo3w |-> WithIdx(Trafo3w0, L), impedance |-> WithIdx(Imp0, L), switch |-> WithIdx(Switch0(cfg.swend, cfg.tsw), L), ext_grid |-> WithIdx(Eg0, L),
      gen |-> WithIdx(Gen0, L), sgen |-> WithIdx(Sgen0, L), load |-> WithIdx(Load0(IF cfg.lvl = "high" THEN 2 ELSE 1), L),
      ward |-> WithIdx(Ward0, L), xward |-> WithIdx(Xward0, L), shunt |-> NoTab]
 
 \* ---- topology of an abstract net ------------------------------------------------------------------------------------------------
 Names(net, t) == DOMAIN net[t]
 Live(net) == {b \in Names(net, "bus") : net.bus[b].ins}
-LineSw(net, l) == {s \in Names(net, "switch") : net.switch[s].et = "l" /\ net.switch[s].elem = l}
-OpenAt(net, l, b) == \E s \in LineSw(net, l) : net.switch[s].bus = b /\ ~net.switch[s].closed
+ElSw(net, et, e) == {s \in Names(net, "switch") : net.switch[s].et = et /\ net.switch[s].elem = e}     \* switches of one branch element
+OpenAtE(net, et, e, b) == \E s \in ElSw(net, et, e) : net.switch[s].bus = b /\ ~net.switch[s].closed
+LineSw(net, l) == ElSw(net, "l", l)
+OpenAt(net, l, b) == OpenAtE(net, "l", l, b)
+SwTab(et) == CASE et = "l" -> "line" [] et = "t" -> "trafo" [] et = "t3" -> "trafo3w" [] et = "b" -> "bus"   \* table a switch element lives in
 BBClosed(net) == {s \in Names(net, "switch") : net.switch[s].et = "b" /\ net.switch[s].closed}
 \* closed bus-bus switches have z_ohm = 0 in this template: they FUSE their buses (build_bus.py create_bus_lookup)
 FuseE(net) == {<<net.switch[s].bus, net.switch[s].elem>> : s \in BBClosed(net)}
 Class(net, b) == Reach({b}, FuseE(net))
-\* conducting connections (topology.unsupplied_buses, respect_switches): an open switch at either end interrupts a line
+\* conducting connections (topology.unsupplied_buses, respect_switches): an open switch at either end interrupts a line or a
+\* two-winding transformer; a three-winding transformer connects those of its sides that have no open switch
 LiveLines(net) == {l \in Names(net, "line") : net.line[l].ins /\ ~OpenAt(net, l, net.line[l].from) /\ ~OpenAt(net, l, net.line[l].to)}
+LiveTrafos(net) == {t \in Names(net, "trafo") : net.trafo[t].ins /\ ~OpenAtE(net, "t", t, net.trafo[t].hv) /\ ~OpenAtE(net, "t", t, net.trafo[t].lv)}
+Sides3(net, w) == {net.trafo3w[w].hv, net.trafo3w[w].mv, net.trafo3w[w].lv}
+LiveSides3(net, w) == IF net.trafo3w[w].ins THEN {b \in Sides3(net, w) : ~OpenAtE(net, "t3", w, b)} ELSE {}
 CondE(net) == {e \in FuseE(net) \cup {<<net.line[l].from, net.line[l].to>> : l \in LiveLines(net)}
-                     \cup {<<net.trafo[t].hv, net.trafo[t].lv>> : t \in {t \in Names(net, "trafo") : net.trafo[t].ins}}
+                     \cup {<<net.trafo[t].hv, net.trafo[t].lv>> : t \in LiveTrafos(net)}
+                     \cup UNION {LiveSides3(net, w) \X LiveSides3(net, w) : w \in Names(net, "trafo3w")}
                      \cup {<<net.impedance[i].from, net.impedance[i].to>> : i \in {i \in Names(net, "impedance") : net.impedance[i].ins}}
                 : e[1] \in Live(net) /\ e[2] \in Live(net)}
 SlackBuses(net) == {net.ext_grid[e].bus : e \in {e \in Names(net, "ext_grid") : net.ext_grid[e].ins}}
@@ -127,18 +155,19 @@ Supplied(net) == Reach(SlackBuses(net) \cap Live(net), CondE(net))
 WireE(net) == {<<net.switch[s].bus, net.switch[s].elem>> : s \in {s \in Names(net, "switch") : net.switch[s].et = "b"}}
               \cup {<<net.line[l].from, net.line[l].to>> : l \in Names(net, "line")}
               \cup {<<net.trafo[t].hv, net.trafo[t].lv>> : t \in Names(net, "trafo")}
+              \cup UNION {Sides3(net, w) \X Sides3(net, w) : w \in Names(net, "trafo3w")}
               \cup {<<net.impedance[i].from, net.impedance[i].to>> : i \in Names(net, "impedance")}
 Component(net, b) == Reach({b}, WireE(net))
 \* buses of an element
 BusesOf(net, t, n) == IF t \in NodeT THEN {net[t][n].bus} ELSE IF t \in FtT THEN {net[t][n].from, net[t][n].to}
-                      ELSE IF t = "trafo" THEN {net.trafo[n].hv, net.trafo[n].lv} ELSE IF t = "bus" THEN {n}
+                      ELSE IF t = "trafo" THEN {net.trafo[n].hv, net.trafo[n].lv} ELSE IF t = "trafo3w" THEN Sides3(net, n)
+                      ELSE IF t = "bus" THEN {n}
                       ELSE IF net.switch[n].et = "b" THEN {net.switch[n].bus, net.switch[n].elem} ELSE {net.switch[n].bus}
 \* the part of a network on a set S of buses (select_subnet, grid_modification.py:40: bus elements at S, branches with all
-\* ends in S, switches at S whose element is kept)
+\* ends in S, switches at S whose element -- bus, line, transformer, three-winding transformer -- is kept)
 Sub(net, S) ==
     LET keep(t) == {n \in Names(net, t) : BusesOf(net, t, n) \subseteq S}
-        lines == keep("line")
-        sw == {s \in keep("switch") : net.switch[s].et = "l" => net.switch[s].elem \in lines}
+        sw == {s \in keep("switch") : net.switch[s].elem \in keep(SwTab(net.switch[s].et))}
     IN [t \in AllT |-> [n \in (IF t = "switch" THEN sw ELSE keep(t)) |-> net[t][n]]] @@ [sn |-> net.sn]
 \* index labels a part gets when it is built as a network of its own (merge_nets: both parts use overlapping labels)
 Relabel(net, layout) ==
@@ -161,27 +190,33 @@ Fuse(net, keep, gone) ==
                                                ELSE [net.switch[s] EXCEPT !.bus = mv(@)]]
         inner == {s \in DOMAIN sw0 : sw0[s].et = "b" /\ sw0[s].bus = sw0[s].elem}
     IN [sn |-> net.sn, bus |-> Drop(net.bus, {gone}), line |-> ft(net.line), impedance |-> ft(net.impedance),
-        trafo |-> [t \in Names(net, "trafo") |-> [net.trafo[t] EXCEPT !.hv = mv(@), !.lv = mv(@)]], switch |-> Drop(sw0, inner),
+        trafo |-> [t \in Names(net, "trafo") |-> [net.trafo[t] EXCEPT !.hv = mv(@), !.lv = mv(@)]],
+        trafo3w |-> [w \in Names(net, "trafo3w") |-> [net.trafo3w[w] EXCEPT !.hv = mv(@), !.mv = mv(@), !.lv = mv(@)]], switch |-> Drop(sw0, inner),
         ext_grid |-> node(net.ext_grid), gen |-> node(net.gen), sgen |-> node(net.sgen), load |-> node(net.load),
         ward |-> node(net.ward), xward |-> node(net.xward), shunt |-> node(net.shunt)]
 
-\* drop_out_of_service_elements (grid_modification.py:996): out-of-service branches go first (lines with their switches), then
+\* drop_out_of_service_elements (grid_modification.py:996): out-of-service branches go first (lines / transformers with their switches), then
 \* out-of-service buses that no remaining branch refers to (with everything attached to them), then out-of-service bus elements
 DropOos(net) ==
     LET lines == {l \in Names(net, "line") : net.line[l].ins}
         trafos == {t \in Names(net, "trafo") : net.trafo[t].ins}
         imps == {i \in Names(net, "impedance") : net.impedance[i].ins}
+        t3s == {w \in Names(net, "trafo3w") : net.trafo3w[w].ins}
         held == UNION ({{net.line[l].from, net.line[l].to} : l \in lines} \cup {{net.trafo[t].hv, net.trafo[t].lv} : t \in trafos}
-                       \cup {{net.impedance[i].from, net.impedance[i].to} : i \in imps})
+                       \cup {{net.impedance[i].from, net.impedance[i].to} : i \in imps} \cup {Sides3(net, w) : w \in t3s})
         gone == {b \in Names(net, "bus") : ~net.bus[b].ins /\ b \notin held}
         n1 == [net EXCEPT !.line = Drop(@, Names(net, "line") \ lines), !.trafo = Drop(@, Names(net, "trafo") \ trafos),
-                          !.impedance = Drop(@, Names(net, "impedance") \ imps),
-                          !.switch = Drop(@, {s \in Names(net, "switch") : net.switch[s].et = "l" /\ net.switch[s].elem \notin lines})]
+                          !.impedance = Drop(@, Names(net, "impedance") \ imps), !.trafo3w = Drop(@, Names(net, "trafo3w") \ t3s),
+                          !.switch = Drop(@, {s \in Names(net, "switch") : (net.switch[s].et = "l" /\ net.switch[s].elem \notin lines)
+                                                                          \/ (net.switch[s].et = "t" /\ net.switch[s].elem \notin trafos)
+                                                                          \/ (net.switch[s].et = "t3" /\ net.switch[s].elem \notin t3s)})]
         n2 == Sub(n1, Names(net, "bus") \ gone)
     IN [t \in AllT |-> IF t \in NodeT THEN Drop(n2[t], {n \in DOMAIN n2[t] : ~n2[t][n].ins}) ELSE n2[t]] @@ [sn |-> net.sn]
 \* set_isolated_areas_out_of_service (grid_modification.py:307): buses that are not energised go out of service together with the
 \* elements connected to them (get_connected_elements: a line is NOT connected to a bus where it has an open switch); a line
-\* whose open switch looks at an out-of-service bus on the other side goes out of service as well
+\* whose open switch looks at an out-of-service bus on the other side goes out of service as well.  Transformers: the open
+\* transformer switches of the template never de-energise a bus (Equiv!EnergisationKept), so a transformer goes out of service
+\* exactly when one of its buses does
 Isolate(net) ==
     LET U == Names(net, "bus") \ Supplied(net)
         conn(l) == \E b \in {net.line[l].from, net.line[l].to} : b \in U /\ ~OpenAt(net, l, b)
@@ -190,6 +225,7 @@ Isolate(net) ==
     IN [net EXCEPT !.bus = [b \in Names(net, "bus") |-> [net.bus[b] EXCEPT !.ins = net.bus[b].ins /\ b \notin U]],
                    !.line = [l \in Names(net, "line") |-> [net.line[l] EXCEPT !.ins = net.line[l].ins /\ ~conn(l) /\ ~far(l)]],
                    !.trafo = [t \in Names(net, "trafo") |-> [net.trafo[t] EXCEPT !.ins = net.trafo[t].ins /\ net.trafo[t].hv \notin U /\ net.trafo[t].lv \notin U]],
+                   !.trafo3w = [w \in Names(net, "trafo3w") |-> [net.trafo3w[w] EXCEPT !.ins = net.trafo3w[w].ins /\ Sides3(net, w) \cap U = {}]],
                    !.impedance = [j \in Names(net, "impedance") |-> [net.impedance[j] EXCEPT !.ins = net.impedance[j].ins /\ net.impedance[j].from \notin U /\ net.impedance[j].to \notin U]],
                    !.ext_grid = node(net.ext_grid), !.gen = node(net.gen), !.sgen = node(net.sgen), !.load = node(net.load),
                    !.ward = node(net.ward), !.xward = node(net.xward), !.shunt = node(net.shunt)]
@@ -329,7 +365,7 @@ M(kind, ls, l, rs, r) == [kind |-> kind, ls |-> ls, l |-> l, rs |-> rs, r |-> r]
 EqM(k) == M("eq", "A", {k}, "B", {k})
 RenM(ka, kb) == M("ren", "A", {ka}, "B", {kb})
 SumM(ka, kbs) == M("sum", "A", ka, "B", kbs)
-LossKeys(net) == UNION {{<<t, n, "pl">> : n \in Names(net, t)} : t \in {"line", "trafo", "impedance"}}
+LossKeys(net) == UNION {{<<t, n, "pl">> : n \in Names(net, t)} : t \in {"line", "trafo", "trafo3w", "impedance"}}
 LossKeysQ(net) == {<<k[1], k[2], "ql">> : k \in LossKeys(net)}
 
 \* keys with the same name on both sides whose meaning changes
@@ -389,6 +425,7 @@ ProjRow(net, t, n) == CASE t = "bus" -> [ins |-> net.bus[n].ins]
                         [] t = "line" -> [from |-> net.line[n].from, to |-> net.line[n].to, ins |-> net.line[n].ins, par |-> net.line[n].par]
                         [] t = "impedance" -> [from |-> net.impedance[n].from, to |-> net.impedance[n].to, ins |-> net.impedance[n].ins]
                         [] t = "trafo" -> [hv |-> net.trafo[n].hv, lv |-> net.trafo[n].lv, ins |-> net.trafo[n].ins]
+                        [] t = "trafo3w" -> [hv |-> net.trafo3w[n].hv, mv |-> net.trafo3w[n].mv, lv |-> net.trafo3w[n].lv, ins |-> net.trafo3w[n].ins]
                         [] t = "switch" -> [bus |-> net.switch[n].bus, elem |-> net.switch[n].elem, et |-> net.switch[n].et]
 Proj(net) == [t \in AllT |-> [n \in Names(net, t) |-> ProjRow(net, t, n)]]
 =============================================================================
